@@ -23,7 +23,7 @@ for n in names:
         subprocess.run(['git', '-C', '/repo', 'apply', '-3', patch]).returncode == 0
     if not ok:
         results[n] = dict(applied=False)
-        subprocess.run(['git', '-C', '/repo', 'checkout', '--', '.'])
+        subprocess.run(['git', '-C', '/repo', 'reset', '-q', '--hard', 'HEAD'])
         continue
     try:
         r = {}
@@ -38,8 +38,7 @@ for n in names:
         results[n] = dict(applied=True, property=pid, checks=r,
                           detected=any(v['detected'] for v in r.values()))
     finally:
-        subprocess.run(['git', '-C', '/repo', 'checkout', '--', '.'])
-        subprocess.run(['git', '-C', '/repo', 'reset', '-q'])
+        subprocess.run(['git', '-C', '/repo', 'reset', '-q', '--hard', 'HEAD'])
     print(n, results[n].get('detected'),
           {c: (v['exit'], v['first_key']) for c, v in results[n].get('checks', {}).items()})
     json.dump(results, open(resf, 'w'), indent=1, sort_keys=True)
